@@ -46,6 +46,13 @@ func c11Call(cli *BaseClient, ctx context.Context, kind int) error {
 func VerifH_C11_Blocking() {
 	conn := newVconn("c0")
 	cli := &BaseClient{Transport: conn}
+	if verifChoice("callback", 2) == 1 {
+		// a state callback that looks at its own client, as applications do
+		cli.ConnState = func(s ConnState, err error) {
+			_ = cli.Err()
+			_ = cli.Done()
+		}
+	}
 	kind := verifChoice("call", 6)
 	answered := verifChoice("answered", c11Steps(kind)) // exchange packets answered before the cause
 	cause := verifChoice("cause", 6)                    // 0 cancel, 1 deadline, 2 local Close, 3 peer close, 4 malformed packet, 5 Disconnect from another goroutine
